@@ -165,3 +165,107 @@ func genCrcSplits(r *rng, n int) CaseSet {
 	}
 	return cs
 }
+
+// lcgBytes: n bytes of a congruential generator both sides implement (long buffers are not sent
+// over the line protocol)
+func lcgBytes(seed uint64, n int) []byte {
+	out := make([]byte, n)
+	x := seed
+	for i := range out {
+		x = (1103515245*x + 12345) % 2147483648
+		out[i] = byte(x >> 16)
+	}
+	return out
+}
+
+func init() {
+	// long buffers: one Write / Checksum call of 64 KiB and more (fast paths for long inputs),
+	// even and odd lengths, written whole and in pieces
+	extraOps["crcbig"] = func(a []string) string {
+		seed, err := strconv.ParseUint(a[0], 10, 64)
+		n, err2 := strconv.Atoi(a[1])
+		if err != nil || err2 != nil || n < 0 || n > 1<<23 {
+			return "bad-arg"
+		}
+		data := lcgBytes(seed, n)
+		h := dyncrc16.New()
+		pos := 0
+		if a[2] != "-" {
+			for _, c := range strings.Split(a[2], ".") {
+				k, _ := strconv.Atoi(c)
+				if k < pos {
+					k = pos
+				}
+				if k > len(data) {
+					k = len(data)
+				}
+				h.Write(data[pos:k])
+				pos = k
+			}
+		}
+		h.Write(data[pos:])
+		c := dyncrc16.Checksum(data)
+		return fmt.Sprintf("%d %d %d", h.Sum16(), c, dyncrc16.Checksum(append(append([]byte{}, data...), byte(c), byte(c>>8))))
+	}
+}
+
+func genCrcBig(r *rng, thorough bool) CaseSet {
+	cs := CaseSet{Name: "crc-long-buffers"}
+	lens := []int{4095, 4097, 32767, 32769, 65535, 65536, 65537, 100001, 131071, 131073, 262143}
+	if thorough {
+		lens = append(lens, 262145, 524287, 524289, 1048575, 1048577, 2097153)
+	}
+	for i := 0; i < 4; i++ {
+		lens = append(lens, 60000+r.intn(200000))
+	}
+	for _, l := range lens {
+		seed := r.next() % 2147483648
+		cs.Cases = append(cs.Cases, fmt.Sprintf("crcbig %d %d -", seed, l))
+		// the same buffer in two or three pieces, one of them long
+		c1 := r.intn(l/2 + 1)
+		cs.Cases = append(cs.Cases, fmt.Sprintf("crcbig %d %d %d", seed, l, c1))
+		cs.Cases = append(cs.Cases, fmt.Sprintf("crcbig %d %d %d.%d", seed, l, c1, l-r.intn(l/4+1)))
+	}
+	return cs
+}
+
+// crcLengths: Go-side oracle over many lengths: Checksum and a single Write of a buffer of every
+// length around the powers of two up to 2 MiB (and a stride in between) must equal the bitwise
+// reference, and the residue rule must hold
+func crcLengths(res *RunResult) {
+	var lens []int
+	for k := 0; k <= 21; k++ {
+		for d := -3; d <= 3; d++ {
+			if l := (1 << k) + d; l >= 0 {
+				lens = append(lens, l)
+			}
+		}
+	}
+	for l := 60000; l < 300000; l += 7919 {
+		lens = append(lens, l, l+1)
+	}
+	big := lcgBytes(uint64(res.Seed)+77, 1<<21+8)
+	n := 0
+	for _, l := range lens {
+		for _, off := range []int{0, 1} {
+			if off+l > len(big) {
+				continue
+			}
+			data := big[off : off+l]
+			want := ownCRC(data)
+			n++
+			if got := dyncrc16.Checksum(data); got != want {
+				addViolation(res, fmt.Sprintf("crcbig %d %d -", uint64(res.Seed)+77, l), fmt.Sprint(got), fmt.Sprintf("Checksum of %d bytes (offset %d of the generated buffer) is %#04x, CRC-16/ARC is %#04x", l, off, got, want))
+				return
+			}
+			h := dyncrc16.New()
+			h.Write(data[:l/3])
+			h.Write(data[l/3:])
+			if got := h.Sum16(); got != want {
+				addViolation(res, fmt.Sprintf("crcbig %d %d %d", uint64(res.Seed)+77, l, l/3), fmt.Sprint(got), fmt.Sprintf("two Writes of %d bytes in all give %#04x, CRC-16/ARC is %#04x", l, got, want))
+				return
+			}
+		}
+	}
+	res.Notes = append(res.Notes, fmt.Sprintf("long-buffer oracle: %d buffers of %d lengths up to 2 MiB against the bitwise reference", n, len(lens)))
+}
